@@ -253,6 +253,11 @@ def scale_by_hs(ctx, rng, xr):
     if len(f) < 3:
         return
     f32 = dt == "float32"
+    if rng.random() < 0.12:
+        # spectra stored as integers (counts, unscaled packed values): the prescribed height is still the prescribed height
+        q_ = float(np.nanmax(x.values)) / float(rng.choice([50.0, 400.0, 3000.0])) or 1.0
+        x = x.copy(data=np.rint(x.values / q_).astype(str(rng.choice(["int32", "int64"]))))
+        dt = str(x.dtype)
     hs0 = vals(x.spec.hs())
     tp0 = vals(x.spec.tp())
     dpm0 = vals(x.spec.dpm())
@@ -267,22 +272,40 @@ def scale_by_hs(ctx, rng, xr):
         lo, hi = np.quantile(v, [rng.uniform(0, 0.5), rng.uniform(0.5, 1.0)])
         return float(lo), float(hi)
 
+    def sides(lo, hi, nmin, nmax):
+        """Both limits, or only one of them (the other side open)."""
+        m = str(rng.choice(["both", "both", "min", "max"]))
+        if m == "min":
+            hi = np.inf
+        elif m == "max":
+            lo = -np.inf
+        kw.update({k_: v_ for k_, v_ in ((nmin, lo), (nmax, hi)) if np.isfinite(v_)})
+        if m != "both":
+            rec.note("scale_by_hs_one_sided_range")
+        return lo, hi, m
+
     if rng.random() < 0.7:
         lo, hi = rng_pair(hs0)
-        kw.update(hs_min=lo, hs_max=hi)
+        lo, hi, m_ = sides(lo, hi, "hs_min", "hs_max")
         cond &= (hs0 >= lo) & (hs0 <= hi)
-        margin_ok &= (np.abs(hs0 - lo) > 1e-5 * abs(lo) + 1e-12) & (np.abs(hs0 - hi) > 1e-5 * abs(hi) + 1e-12)
+        if np.isfinite(lo):
+            margin_ok &= np.abs(hs0 - lo) > 1e-5 * abs(lo) + 1e-12
+        if np.isfinite(hi):
+            margin_ok &= np.abs(hs0 - hi) > 1e-5 * abs(hi) + 1e-12
         which.append("hs")
     if rng.random() < 0.5:
         lo, hi = rng_pair(tp0)
-        kw.update(tp_min=lo, tp_max=hi)
+        lo, hi, m_ = sides(lo, hi, "tp_min", "tp_max")
         with np.errstate(invalid="ignore"):
             cond &= (tp0 >= lo) & (tp0 <= hi)
-        margin_ok &= ~(np.abs(tp0 - lo) <= 1e-5 * abs(lo)) & ~(np.abs(tp0 - hi) <= 1e-5 * abs(hi))
+        if np.isfinite(lo):
+            margin_ok &= ~(np.abs(tp0 - lo) <= 1e-5 * abs(lo))
+        if np.isfinite(hi):
+            margin_ok &= ~(np.abs(tp0 - hi) <= 1e-5 * abs(hi))
         which.append("tp")
     if rng.random() < 0.5:
         lo, hi = rng_pair(dpm0)
-        kw.update(dpm_min=lo, dpm_max=hi)
+        lo, hi, m_ = sides(lo, hi, "dpm_min", "dpm_max")
         with np.errstate(invalid="ignore"):
             cond &= (dpm0 >= lo) & (dpm0 <= hi)
         margin_ok &= ~(np.abs(dpm0 - lo) <= 1e-3) & ~(np.abs(dpm0 - hi) <= 1e-3)
